@@ -14,7 +14,8 @@ RULES = {
            "clamped to [1, 8192/binning] with strides (1,1,w,w*h); get() reads back the values in effect; get_frame gets an "
            "exact-size heap block pre-filled with a per-call pattern and over >=6 frames every image byte must have been "
            "overwritten at least once; a third of the configurations use the software trigger (one trigger per frame call), a "
-           "quarter of the runs apply the settings again while live, runs are repeated without a set in between. "
+           "quarter of the runs apply the settings again while live (trigger-enabled runs may end with a live set of another "
+           "region followed by one more triggered frame of the new size), runs are repeated without a set in between. "
            "Non-trivial = case that streamed frames; distinct by (binning, type, clamped shape) "
            "sequence hash. One sanitizer report ends a worker; it is restarted behind the failing case.",
     "C18": "seeded cases: 3-6 start/stop runs per camera with a consumer thread (get_frame loop), a trigger thread (paced "
@@ -114,7 +115,7 @@ def run(prop, tier, replay=None):
     tot = vlib.merge_counts(summaries, skip=("distinct",))
     distinct = len(vlib.read_hashes(hashes))
     shutil.rmtree(tmp, ignore_errors=True)
-    need = ["cases_with_binning", "clamped_requests", "max_shape_requests", "reconfigurations", "frames", "rejected_sets", "live_sets"] if prop == "C17" \
+    need = ["cases_with_binning", "clamped_requests", "max_shape_requests", "reconfigurations", "frames", "rejected_sets", "live_sets", "live_resizes"] if prop == "C17" \
         else ["trigger_runs", "stops_with_pending_get_frame", "restart_checks", "restarts_without_set", "live_sets", "timebound_checks", "frames", "failed_frame_calls"]
     for k in need:
         if not tot.get(k):
